@@ -2,6 +2,7 @@ package main
 
 import (
 	"fmt"
+	"sort"
 
 	hg "github.com/mosaicnetworks/babble/src/hashgraph"
 )
@@ -289,4 +290,146 @@ func minInt(a, b int) int {
 		return a
 	}
 	return b
+}
+
+// ---------------------------------------------------------------------------
+// C13: frames computed independently for the same round are identical
+// ---------------------------------------------------------------------------
+
+type MonFrames struct {
+	frames map[int]*hg.Frame
+	canon map[int]string
+	from  map[int]int
+	seen  map[[2]int]bool
+}
+
+func NewMonFrames() *MonFrames {
+	return &MonFrames{frames: map[int]*hg.Frame{}, canon: map[int]string{}, from: map[int]int{}, seen: map[[2]int]bool{}}
+}
+func (m *MonFrames) Name() string { return "frames" }
+func (m *MonFrames) AfterStep(nw *Network) {
+	for _, n := range nw.Nodes {
+		if n.Node == nil || n.Puppet || !n.Up || n.StoreClosed {
+			continue
+		}
+		lcr := n.Node.GetLastConsensusRoundIndex()
+		for r := lcr; r >= 0 && r > lcr-4; r-- {
+			k := [2]int{n.Idx*1000 + n.Incarnation, r}
+			if m.seen[k] {
+				continue
+			}
+			f, err := n.Core.Hg().Store.GetFrame(r)
+			if err != nil {
+				continue
+			}
+			m.seen[k] = true
+			fh, err := f.Hash()
+			if err != nil {
+				continue
+			}
+			hs := fmt.Sprintf("%x", fh)
+			nw.Res.count("frame_hash_comparisons", 1)
+			if c, ok := m.canon[r]; ok {
+				if c != hs {
+					nw.violate("C13", "C13:frames-differ-between-honest-nodes",
+						fmt.Sprintf("nodes %d and %d computed different frames for round %d", m.from[r], n.Idx, r),
+						map[string]interface{}{"round": r, "node_a": m.from[r], "node_b": n.Idx, "node_b_resets": n.ResetEpochs, "node_a_resets": nw.Nodes[m.from[r]].ResetEpochs, "diff": frameDiff(m.frames[r], f), "first_rounds": firstRoundsOf(nw, nw.Nodes[m.from[r]], n), "peersets_a": psRounds(m.frames[r]), "peersets_b": psRounds(f)})
+					return
+				}
+			} else {
+				m.canon[r] = hs
+				m.from[r] = n.Idx
+				m.frames[r] = f
+			}
+		}
+	}
+}
+func (m *MonFrames) Finish(nw *Network) {}
+
+func frameDiff(a, b *hg.Frame) []string {
+	out := []string{}
+	if a == nil || b == nil {
+		return out
+	}
+	if a.Round != b.Round {
+		out = append(out, fmt.Sprintf("round %d vs %d", a.Round, b.Round))
+	}
+	if a.Timestamp != b.Timestamp {
+		out = append(out, fmt.Sprintf("timestamp %d vs %d", a.Timestamp, b.Timestamp))
+	}
+	if peerKeys(a.Peers) != peerKeys(b.Peers) {
+		out = append(out, fmt.Sprintf("peers %s vs %s", peerKeys(a.Peers), peerKeys(b.Peers)))
+	}
+	if len(a.Events) != len(b.Events) {
+		out = append(out, fmt.Sprintf("events %d vs %d", len(a.Events), len(b.Events)))
+	} else {
+		for i := range a.Events {
+			x, y := a.Events[i], b.Events[i]
+			if x.Core.Hex() != y.Core.Hex() || x.Round != y.Round || x.LamportTimestamp != y.LamportTimestamp || x.Witness != y.Witness {
+				out = append(out, fmt.Sprintf("event %d: %s r%d l%d w%v vs %s r%d l%d w%v", i, x.Core.Hex()[:10], x.Round, x.LamportTimestamp, x.Witness, y.Core.Hex()[:10], y.Round, y.LamportTimestamp, y.Witness))
+			}
+		}
+	}
+	for k, ra := range a.Roots {
+		rb, ok := b.Roots[k]
+		if !ok {
+			out = append(out, "root missing in b: "+k[:12])
+			continue
+		}
+		if len(ra.Events) != len(rb.Events) {
+			out = append(out, fmt.Sprintf("root %s: %d vs %d events", k[:12], len(ra.Events), len(rb.Events)))
+			continue
+		}
+		for i := range ra.Events {
+			x, y := ra.Events[i], rb.Events[i]
+			if x.Core.Hex() != y.Core.Hex() || x.Round != y.Round || x.LamportTimestamp != y.LamportTimestamp || x.Witness != y.Witness {
+				out = append(out, fmt.Sprintf("root %s event %d: %s r%d l%d w%v vs %s r%d l%d w%v", k[:12], i, x.Core.Hex()[:10], x.Round, x.LamportTimestamp, x.Witness, y.Core.Hex()[:10], y.Round, y.LamportTimestamp, y.Witness))
+			}
+		}
+	}
+	for k := range b.Roots {
+		if _, ok := a.Roots[k]; !ok {
+			out = append(out, "root missing in a: "+k[:12])
+		}
+	}
+	ra, rb := []int{}, []int{}
+	for r := range a.PeerSets {
+		ra = append(ra, r)
+	}
+	for r := range b.PeerSets {
+		rb = append(rb, r)
+	}
+	sort.Ints(ra)
+	sort.Ints(rb)
+	if fmt.Sprint(ra) != fmt.Sprint(rb) {
+		out = append(out, fmt.Sprintf("peer-set rounds %v vs %v", ra, rb))
+	} else {
+		for _, r := range ra {
+			if peerKeys(a.PeerSets[r]) != peerKeys(b.PeerSets[r]) {
+				out = append(out, fmt.Sprintf("peer-set %d: %s vs %s", r, peerKeys(a.PeerSets[r]), peerKeys(b.PeerSets[r])))
+			}
+		}
+	}
+	if len(out) > 15 {
+		out = out[:15]
+	}
+	return out
+}
+
+func psRounds(f *hg.Frame) map[int]string {
+	out := map[int]string{}
+	for r, ps := range f.PeerSets {
+		out[r] = peerKeys(ps)
+	}
+	return out
+}
+
+func firstRoundsOf(nw *Network, a, b *SimNode) []string {
+	out := []string{}
+	for _, x := range nw.Nodes {
+		fa, oka := a.Core.Hg().Store.FirstRound(x.ID)
+		fb, okb := b.Core.Hg().Store.FirstRound(x.ID)
+		out = append(out, fmt.Sprintf("identity %d (%s): first round at node %d = %d/%v, at node %d = %d/%v", x.Idx, x.PubHex[:12], a.Idx, fa, oka, b.Idx, fb, okb))
+	}
+	return out
 }
